@@ -16,14 +16,16 @@ for l in lines:
     ok = base.startswith('ok.') and patched.startswith('FAILED') and '443 passed; 0 failed' in suite
     if not ok:
         print('NOT CONFIRMED', pid, k, base, patched, suite); continue
-    src = f'/tmp/seed/out-{pid}'
+    # K = 1..3: round 1 (/tmp/seed/out-<ID>), K = 4..6: round 2 (/tmp/seed/out2-<ID>, files 1..3)
+    src = f'/tmp/seed/out-{pid}' if int(k) <= 3 else f'/tmp/seed/out2-{pid}'
+    fk = int(k) if int(k) <= 3 else int(k) - 3
     dst = f'{V}/seeded/{pid}-{k}'
     os.makedirs(dst, exist_ok=True)
-    shutil.copy(f'{src}/patch{k}.diff', f'{dst}/patch.diff')
-    shutil.copy(f'{src}/demo{k}.rs', f'{dst}/demo.rs')
+    shutil.copy(f'{src}/patch{fk}.diff', f'{dst}/patch.diff')
+    shutil.copy(f'{src}/demo{fk}.rs', f'{dst}/demo.rs')
     notes = open(f'{src}/notes.md').read()
     parts = re.split(r'(?m)^(?=## )', notes)
-    sec = [p for p in parts if re.match(r'## .{0,12}?(?:[Pp]atch|K =)\s*%s\b' % k, p) or re.match(r'## [Pp]atch%s\b' % k, p)]
+    sec = [p for p in parts if re.match(r'## .{0,12}?(?:[Pp]atch|K =)\s*%s\b' % fk, p) or re.match(r'## [Pp]atch%s\b' % fk, p)]
     section = sec[0] if sec else ''
     open(f'{dst}/notes.md', 'w').write(section or notes)
     title = section.splitlines()[0][3:].strip() if section else ''
@@ -32,6 +34,7 @@ for l in lines:
     files = sorted(set(re.findall(r'^\+\+\+ b/(\S+)', open(f'{dst}/patch.diff').read(), re.M)))
     meta = {
         'property': pid,
+        'round': 1 if int(k) <= 3 else 2,
         'breaks': title,
         'files_changed': files,
         'needs_to_manifest': needs,
